@@ -1,5 +1,6 @@
 """C02 - round trip through the safe dumpers and loaders (boundary oracle: ref.bisim)."""
 import random
+import re
 
 import yaml
 
@@ -49,23 +50,37 @@ def one(spec, opts, dname, lname):
 
 
 def f7c_symptom(la, lb):
-    """libyaml's folded writer broke a more-indented (leading-space) line: the loaded text equals the
-    original except that spaces inside more-indented lines became line breaks, and possibly the break
-    that ended such a line became a space (the tail of the broken line is now an ordinary line)."""
-    if not (isinstance(la, str) and isinstance(lb, str) and len(la) == len(lb)):
+    """libyaml's folded writer broke a more-indented (leading-space) line.  What a YAML scanner then reads is modelled
+    exactly: the FIRST fold inside such a line comes back as a line break (the head is still more-indented, so the break
+    after it is kept); later folds of the same line are between ordinary lines and fold back to spaces; and the break run
+    that ended the line now follows an ordinary line, so if the next line is ordinary too its first '\n' is folded away
+    (a single '\n' becomes a space, k breaks become k-1).  Nothing else may differ."""
+    if not (isinstance(la, str) and isinstance(lb, str)):
         return False
-    pos = [i for i in range(len(la)) if la[i] != lb[i]]
-    fwd = 0
-    brk = '\n' + chr(0x85) + chr(0x2028) + chr(0x2029)
-    for i in pos:
-        ls = max(la.rfind(c, 0, i) for c in brk) + 1          # the line may have been started by NEL / LS / PS as well
-        if la[ls:ls + 1] != ' ':
-            return False        # the line is not more-indented / leading-space
-        if la[i] == ' ' and lb[i] == '\n':
-            fwd += 1
-        elif not (la[i] == '\n' and lb[i] == ' '):
+    segs = re.split('([\n' + chr(0x85) + chr(0x2028) + chr(0x2029) + ']+)', la)       # lines at even, break runs at odd positions
+    j = fwd = 0
+    for idx in range(0, len(segs), 2):
+        line = segs[idx]
+        run = segs[idx + 1] if idx + 1 < len(segs) else ''
+        nxt = segs[idx + 2] if idx + 2 < len(segs) else None
+        got = lb[j:j + len(line)]
+        if len(got) != len(line):
             return False
-    return fwd > 0
+        diff = [k for k in range(len(line)) if line[k] != got[k]]
+        broken = False
+        if diff:
+            if not line.startswith(' ') or len(diff) != 1 or line[diff[0]] != ' ' or got[diff[0]] != '\n':
+                return False
+            broken = True
+            fwd += 1
+        j += len(line)
+        exp = run
+        if broken and run[:1] == '\n' and nxt and nxt[0] not in ' \t':
+            exp = ' ' if len(run) == 1 else run[1:]
+        if lb[j:j + len(exp)] != exp:
+            return False
+        j += len(exp)
+    return j == len(lb) and fwd > 0
 
 
 def classify(spec, opts, dname, lname, res):
